@@ -30,3 +30,37 @@ Proof. exact (Client_proofs4.C14_state_persists s o p ps c). Qed.
 Print Assumptions C14_one_outstanding.
 Print Assumptions C14_outstanding_blocks_poll.
 Print Assumptions C14_state_persists.
+
+(* ---- records-agree half (Net.v; package F).  For every reachable net: after a settle and a refresh, everything the
+   requester still wants is registered at every connected serving node (want set and waiter list).  The converse
+   inclusion is refuted BEFORE a refresh (a stale want can survive until the next full wantlist — which the property
+   allows: "at the latest after the next wantlist refresh") and, after a refresh, is checked by the net engine's
+   oracle_C14 on sampled histories only (not proved). *)
+From BS Require Import Net Net_proofs Net_proofs2 Net_proofs5 Net_proofs7 Net_proofs9 Net_proofs10 Net_proofs11 Net_proofs12 Net_proofs13 Server_inv Net_props.
+From Coq Require Import ZArith Lia.
+Open Scope N_scope.
+
+Theorem C14_records_agree_partial (Sz : N) (Hh : hash_fn) (HSz : 32 <= Sz) (i j : N) n ops :
+  Forall (nop_good Sz Hh) ops -> Forall (nop_wf Sz) ops ->
+  let s := fst (nrun Sz Hh (net_init n) ops) in
+  Net.connected s i j = true ->
+  let r1 := settle Sz Hh s in
+  let r2 := refresh Sz Hh (fst r1) in
+  quietb (fst r1) = true -> quietb (fst r2) = true -> (length (wl_i i (fst r1)) <= 1024)%nat ->
+  forall c, In c (wl_i i (fst r2)) ->
+    exists st, server_of (fst r2) j = Some st /\ wantsP (s_wants st) i c /\ waitsP (s_waiting st) i c.
+Proof. exact (Net_props.C14_records_agree_partial Sz Hh HSz i j n ops). Qed.
+
+Theorem C14_records_sound_before_refresh_refuted :
+  exists n ops i j c,
+    Forall (nop_good SZ toyH) ops /\ Forall (nop_wf SZ) ops /\
+    let s1 := fst (settle SZ toyH (fst (nrun SZ toyH (net_init n) ops))) in
+    let s2 := fst (refresh SZ toyH s1) in
+    quietb s1 = true /\ Net.connected s1 i j = true /\ ~ In c (wl_i i s1) /\
+    option_map (fun st => alookup N.eqb i (s_wants st)) (server_of s1 j) = Some (Some [c]) /\
+    quietb s2 = true /\ option_map (fun st => alookup N.eqb i (s_wants st)) (server_of s2 j) = Some (Some []).
+Proof. exact (Net_props.C14_records_sound_refuted). Qed.
+
+
+Print Assumptions C14_records_agree_partial.
+Print Assumptions C14_records_sound_before_refresh_refuted.
